@@ -556,6 +556,24 @@ class PathCtx:
         # path VCs sit on impossible paths has not been checked at all (reported as undecided, see verify_contract).
         live = self._check() != z3.unsat
         cfalse = z3.is_false(g)
+        if live and z3.is_and(g) and has_quantifier(g):
+            # a goal mixing plain and quantified conjuncts: a plain conjunct that fails has a counter-model, which the
+            # quantified part would only blur into `unknown`
+            for part in g.children():
+                if has_quantifier(part):
+                    continue
+                self.solver.push()
+                self.solver.add(z3.Not(part))
+                rp = self._check()
+                if rp == z3.sat:
+                    m = self.solver.model()
+                    fail0 = Failure(name, kind, "violated", model_txt=_model_text(m), model=m, detail=detail,
+                                    pc=list(self.pc), goal=part, meta=meta)
+                    self.solver.pop()
+                    self.ex.record(name, kind, False, fail0, dt=time.time() - t0, live=True, const_false=False)
+                    self.assume(g)
+                    return False
+                self.solver.pop()
         self.solver.push()
         for l in self.lemmas:
             self.solver.add(l)
